@@ -28,6 +28,7 @@ fn main() {
         "c13" => drivers::c13::drive(&rest),
         "c13probe" => drivers::c13::probe(&rest),
         "c14" => drivers::c14::drive(&rest),
+        "c17" => drivers::c17::drive(&rest),
         "pipe" => drivers::pipe::drive(&rest),
         "c15" => drivers::c15::drive(&rest),
         "c16" => drivers::c16::drive(&rest),
